@@ -10,7 +10,7 @@ ENGINES = [
 ]
 PENDING = "not implemented yet in this round (planned, see DESIGN.md §4/§7); no check is claimed"
 NOT_APPLICABLE = {p: PENDING for p in
-                  [ "C06", "C08", "C10", "C14", "C15",
+                  ["C08", "C10", "C14", "C15",
                    "C18", "C19"]}
 BUS_TIE = ("The bus model (lean/Dbus/Model/Bus: dispatch, driver methods, registry, match delivery, policy gate, pending replies, "
            "disconnect cleanup; method table regenerated from bus/driver.c) is tied to the real dbus-daemon (ASan/UBSan build of the working "
